@@ -205,7 +205,15 @@ def refArg : Ref → Arg
   | .noRef => .empty
   | .bareRepo | .unknownTag => .unknown
 
+/-- what the Go code tests: `strings.HasPrefix(k, p)` for the extracted `reservedAnnotationPrefixes` -/
 def isReserved (k : Text) : Bool := Facts.c11ReservedPrefixes.any (fun p => p.isPrefixOf k)
+
+/-- what the property says: the reserved prefix is `io.cncf.notary` - every key beginning with these letters,
+whatever follows (nothing, a dot, `#`, `-`, more letters). Written out here, NOT taken from the code: the clauses use
+it, the model of the code uses the extracted table, and `Props.facts_reserved_prefixes` proves them equal. -/
+def reservedPrefix : Text := ['i', 'o', '.', 'c', 'n', 'c', 'f', '.', 'n', 'o', 't', 'a', 'r', 'y']
+
+def isReservedSpec (k : Text) : Bool := reservedPrefix.isPrefixOf k
 
 def optsValid : Opts → Bool
   | .jws | .cose => true
@@ -408,7 +416,7 @@ def resolvedAnn (i : Input) (c : Step) (k : Nat) : AnnMap :=
 def merged (base md : AnnMap) : AnnMap := md.foldl (fun m kv => put kv.1 kv.2 m) base
 
 def digestMismatch (c : Step) : Bool := refArg c.ref == .otherDigest
-def hasReserved (c : Step) : Bool := c.md.any (fun kv => isReserved kv.1)
+def hasReserved (c : Step) : Bool := c.md.any (fun kv => isReservedSpec kv.1)
 def collides (i : Input) (c : Step) (k : Nat) : Bool := c.md.any (fun kv => (look kv.1 (resolvedAnn i c k)).isSome)
 
 /-- one of the three refusals the property names (`k`: the resolved artifact) -/
